@@ -140,30 +140,67 @@ Print Assumptions C11_app_single_stop.
 (* ---- the modules shipped with the framework ---- *)
 
 (* every path of every Start/Stop (as repaired by hooks/C11-fix-*.patch) calls next exactly
-   once, with the outcome of the path, and does not panic.  Two Stop paths carry a
-   precondition that App.Stop guarantees (Stop is only reached after every Start succeeded,
-   see C11_app_stop_needs_success) and that a bare ModList.Stop after a failed Start does not:
-   ActorSystemModule.Stop needs a live actor system, ClusterModule.Stop needs that its own
-   Start did not fail inside StartMember's init (else Shutdown dereferences a nil node).
-   Without them the real Stop panics before next(); see C11_stop_preconditions_matter. *)
+   once, with the outcome of the path, and does not panic.  The fault points are the
+   parameters: for the cluster module which step fails - etcd.NewWithConfig, StartMember's init,
+   fetchNodes, the watch goroutine, registerService, the keep-alive goroutine; Shutdown's
+   Delete - in every combination.  Two Stop paths carry a precondition that App.Stop guarantees
+   (Stop is only reached after every Start succeeded, see C11_app_stop_needs_success) and that
+   a bare ModList.Stop after a failed Start does not: ActorSystemModule.Stop needs a live actor
+   system, ClusterModule.Stop needs that its own Start did not fail inside StartMember's init
+   (else Shutdown dereferences a nil node).  Without them the real Stop panics before next();
+   see C11_stop_preconditions_matter. *)
 Theorem C11_builtin_once :
   reports_once (beh_of welcome_start_prog) true /\
   reports_once (beh_of welcome_stop_prog) true /\
   (forall info_ok listen_ok, reports_once (beh_of (actor_start_prog info_ok listen_ok)) (info_ok && listen_ok)) /\
   reports_once (beh_of (actor_stop_prog true)) true /\
-  (forall enable new_ok member_ok,
-     reports_once (beh_of (cluster_start_prog enable new_ok member_ok)) (negb enable || (new_ok && member_ok))) /\
-  reports_once (beh_of (cluster_stop_prog false)) true.
+  (forall enable new_ok init_ok fetch_ok watch_ok register_ok keepalive_ok,
+     reports_once (beh_of (cluster_start_prog enable new_ok init_ok fetch_ok watch_ok register_ok keepalive_ok))
+                  (negb enable || (new_ok && init_ok && fetch_ok && register_ok))) /\
+  (forall prov delete_ok, reports_once (beh_of (cluster_stop_prog prov false delete_ok)) true).
 Proof. exact shipped_once. Qed.
 Print Assumptions C11_builtin_once.
 
-(* the same as they are plugged into the list machine, for every environment *)
-Theorem C11_builtin_entry_once : forall e fwd live half k,
+(* which step's error StartMember returns; the goroutines' outcomes do not enter *)
+Theorem C11_start_member_steps : forall init fetch watch register keepalive,
+  failed (start_member init fetch watch register keepalive) = negb (init && fetch && register) /\
+  (start_member init fetch watch register keepalive = Some MInit <-> init = false) /\
+  (start_member init fetch watch register keepalive = Some MFetch <-> init = true /\ fetch = false) /\
+  (start_member init fetch watch register keepalive = Some MRegister <-> init = true /\ fetch = true /\ register = false).
+Proof. exact start_member_spec. Qed.
+Print Assumptions C11_start_member_steps.
+
+(* frame: a failing watch or keep-alive goroutine changes nothing about what Start reports *)
+Theorem C11_cluster_async_faults_frame : forall enable new init fetch watch register keepalive watch' keepalive',
+  beh_of (cluster_start_prog enable new init fetch watch register keepalive) =
+  beh_of (cluster_start_prog enable new init fetch watch' register keepalive').
+Proof. exact cluster_async_frame. Qed.
+Print Assumptions C11_cluster_async_faults_frame.
+
+(* the same as they are plugged into the list machine, for every environment (every set of
+   declared etcd faults, every address, every mode) *)
+Theorem C11_builtin_entry_once : forall e fwd live prov half k,
   shipped k = true -> (k = KActor -> fwd = false -> live = true) ->
   (k = KCluster -> fwd = false -> half = false) ->
-  exists b, entry_beh e fwd live half k = Beh [b] false.
+  exists b, entry_beh e fwd live prov half k = Beh [b] false.
 Proof. exact shipped_entry_once. Qed.
 Print Assumptions C11_builtin_entry_once.
+
+(* on whole histories: in the log of any history (any module list, mode, address, set of etcd
+   faults, any Start/Stop/completion sequence, misbehaving scripted modules included) every
+   call (run r, module i) of a shipped module has exactly one next() - plus the completions the
+   environment itself fired at that call's continuation.  Exempt are only the Stop calls of the
+   actor / cluster module entered without their precondition (unclaimed).  This is the clause
+   the monitor evaluates on the implementation's log (Corr.builtin_ok). *)
+Theorem C11_shipped_calls_once : forall ops,
+  shipped_calls_once ops (run ops) (map fst (s_runs (final ops))).
+Proof. exact shipped_calls_once_model. Qed.
+Print Assumptions C11_shipped_calls_once.
+
+Theorem C11_call_once_monitor_exact : forall ops obs r i,
+  call_once_b ops obs r i = true <-> call_once ops obs r i.
+Proof. exact call_once_b_iff. Qed.
+Print Assumptions C11_call_once_monitor_exact.
 
 (* ---- the monitor run on implementation traces is exactly the statement ---- *)
 Theorem C11_monitor_exact : forall ord t,
@@ -205,13 +242,13 @@ Proof. vm_compute. reflexivity. Qed.
 (* F5, before the repair: ClusterModule.Start on the StartMember-failure path calls
    next(false) and then next(true) ... *)
 Example C11_F5_unrepaired_program :
-  beh_of (cluster_start_prog_unrepaired true true false) = Beh [false; true] false.
+  beh_of (cluster_start_prog_unrepaired true true false true true true true) = Beh [false; true] false.
 Proof. vm_compute. reflexivity. Qed.
 
 (* ... so the list reports failure, then starts the next module anyway, reports success, the
    App becomes Normal and accepts Stop *)
 Example C11_F5_unrepaired_consequence :
-  run [OMode MNode; OMod (KScript (beh_of (cluster_start_prog_unrepaired true true false)) ex_ok);
+  run [OMode MNode; OMod (KScript (beh_of (cluster_start_prog_unrepaired true true false true true true true)) ex_ok);
        OMod (KScript ex_ok ex_ok); OStart; OStop]
   = [[]; []; [];
      [EEnter 0 0; ENext 0 0 false; EFin 0 false; ENext 0 0 true; EEnter 0 1; ENext 0 1 true; EFin 0 true];
@@ -234,9 +271,49 @@ Proof. vm_compute. split; reflexivity. Qed.
 (* the two Stop preconditions matter: a bare ModList.Stop after a failed Start stalls in the
    shipped module (observed on the real code; outside the App guard) *)
 Example C11_stop_preconditions_matter :
-  beh_of (actor_stop_prog false) = Beh [] true /\ beh_of (cluster_stop_prog true) = Beh [] true /\
+  beh_of (actor_stop_prog false) = Beh [] true /\ beh_of (cluster_stop_prog true true true) = Beh [] true /\
   run [OEnv ABad true false; OMod KCluster; OStart; OStop]
   = [[]; []; [EEnter 0 0; ENext 0 0 false; EFin 0 false]; [EEnter 1 0; ERaise 1 0]].
+Proof. vm_compute. repeat split. Qed.
+
+(* the etcd fault points in the list machine: registerService's Put fails - the node start-up
+   ends with one finish(false), Stop is refused; Shutdown's Delete fails - Stop still reports
+   once, with true (the error is logged by the provider and ignored by the module) *)
+Example C11_example_etcd_faults :
+  run [OMode MNode; OEnv AFree true true; OFault FPut; OMod KWelcome; OMod KCluster; OMod (KScript ex_ok ex_ok); OStart; OStop]
+  = [[]; []; []; []; []; []; [EEnter 0 0; ENext 0 0 true; EEnter 0 1; ENext 0 1 false; EFin 0 false]; []] /\
+  run [OEnv AFree true true; OFault FDelete; OFault FWatch; OFault FKaStream; OMod KCluster; OStart; OStop; OStop]
+  = [[]; []; []; []; []; [EEnter 0 0; ENext 0 0 true; EFin 0 true]; [EEnter 1 0; ENext 1 0 true; EFin 1 true];
+     [EEnter 2 0; ENext 2 0 true; EFin 2 true]] /\
+  s_prov (final [OEnv AFree true true; OFault FDelete; OMod KCluster; OStart]) = [0] /\
+  s_prov (final [OEnv AFree true true; OFault FDelete; OMod KCluster; OStart; OStop]) = [].
+Proof. vm_compute. repeat split. Qed.
+
+(* the reference mistake of the completion count: F5's slip made in Stop (report the Shutdown
+   error, fall through to the final next(true)).  Stop then reports [false; true]; in a list the
+   stop completion runs twice and the modules registered earlier are stopped after the failure
+   was reported.  The repository's Stop does not do this (C11_builtin_once); a tree that does is
+   rejected by the monitor's per-call count (Spec.shipped_calls_once) with the history
+   [OEnv AFree true true; OFault FDelete; OMod KCluster; OStart; OStop] *)
+Example C11_stop_fallthrough_mistake :
+  beh_of (cluster_stop_prog_fallthrough true false false) = Beh [false; true] false /\
+  beh_of (cluster_stop_prog true false false) = Beh [true] false /\
+  run [OMod (KScript ex_ok ex_ok); OMod (KScript ex_ok (beh_of (cluster_stop_prog_fallthrough true false false)));
+       OStart; OStop]
+  = [[]; []; [EEnter 0 0; ENext 0 0 true; EEnter 0 1; ENext 0 1 true; EFin 0 true];
+     [EEnter 1 1; ENext 1 1 false; EFin 1 false; ENext 1 1 true; EEnter 1 0; ENext 1 0 true; EFin 1 true]].
+Proof. vm_compute. repeat split. Qed.
+
+(* C11_shipped_calls_once is not vacuous: in a node history with a failing deregistration every
+   call of every shipped module is claimed (6 calls, each with one next()); after a Start that
+   failed inside StartMember's init a bare ModList.Stop is the exempt call *)
+Example C11_claimed_calls :
+  (let ops := [OMode MNode; OEnv AFree true true; OFault FDelete; OMod KWelcome; OMod KActor; OMod KCluster; OStart; OStop] in
+   unclaimed (env_of ops) (map fst (s_runs (final ops))) false [] (concat (run ops)) = [] /\
+   map fst (s_runs (final ops)) = [true; false] /\
+   caps_of (concat (run ops)) = [(0, 0); (0, 1); (0, 2); (1, 2); (1, 1); (1, 0)]) /\
+  (let ops := [OEnv ABad true false; OMod KCluster; OStart; OStop] in
+   unclaimed (env_of ops) (map fst (s_runs (final ops))) false [] (concat (run ops)) = [(1, 0)]).
 Proof. vm_compute. repeat split. Qed.
 
 (* a module that calls next(true) twice: finish runs twice *)
